@@ -38,7 +38,7 @@ CONF = {
             "oracle: exact math/big value of inner*current/total rounded half away from zero; one cell of tolerance only when the exact value is within 1e-9 of a half; go-runewidth cell widths (2-column runes: within one rune)",
         ],
         "tiers": tiers(8, 25000, 16, 400000, t_fuzz=[{"target": "FuzzC08", "seconds": 120}]),
-        "require_classes": ["product>=2^64", "wide", "cluster", "refill", "pair", "total<=0", "current>=total"],
+        "require_classes": ["product>=2^64", "wide", "cluster", "refill", "pair", "total<=0", "current>=total", "animated-tip"],
     },
     "C07": {
         "rule": "cases = (mode fill|decor|row, terminal width 0..250, requested width, bar/spinner/nop style over an alphabet with wide, zero-width, multi-rune and empty components, 0-4 decorators with W/C configs and wrapper stacks, int64 counters, 1-4 repeated renders); non-trivial = a component of width != 1, refill>0, requested>available, width<6 or decorators that do not fit; distinct by FNV-64 of the case JSON",
@@ -48,7 +48,7 @@ CONF = {
             "style alphabet restricted to strings that do not join into grapheme clusters with their neighbours",
         ],
         "tiers": tiers(8, 6000, 16, 150000, t_fuzz=[{"target": "FuzzC07", "seconds": 180}]),
-        "require_classes": ["mode:fill", "mode:decor", "mode:row", "zero-width-component", "wide-component", "wide-tip", "multi-tip", "row:decorators-exceed-width", "row:pty", "style:spinner", "mode:frames", "frames:clipped"],
+        "require_classes": ["mode:fill", "mode:decor", "mode:row", "zero-width-component", "wide-component", "wide-tip", "multi-tip", "row:decorators-exceed-width", "row:pty", "style:spinner", "mode:frames", "frames:clipped", "frames:resized"],
     },
     "C09": {
         "rule": "cases = (initial total over int64 classes, refresh mode none|manual|injected auto, with/without EWMA decorator, 0-40 operations drawn against the reference bar model so that mutators stop at the first terminal state: increments of all 6 flavours incl. negative and boundary amounts, SetCurrent/EwmaSetCurrent, SetTotal(+/-,complete), EnableTriggerComplete, SetRefill, Abort, getters, render cycles); non-trivial = >=3 mutators of >=2 kinds and the trigger flag was touched or the cap at total applied; distinct by FNV-64 of the case JSON",
@@ -64,7 +64,7 @@ CONF = {
             "verb b (binary exponent form) is not generated: Go cannot parse it back; speeds are kept <= 1e18 B/s (int64 bytes per second)",
         ],
         "tiers": tiers(8, 12000, 16, 300000, t_fuzz=[{"target": "FuzzC20", "seconds": 90}]),
-        "require_classes": ["kind:size", "kind:pair", "kind:pct", "kind:elapsed", "kind:eta", "kind:avgeta", "kind:speed", "kind:avgspeed", "kind:ewma", "kind:freeze", "current>2^64/100", "value>2^53", "unit-boundary", "duration>=24h", "zero-then-progress", "via-bar", "wrap-depth:4", "twin-moved", "avg:median", "avg:hybrid"],
+        "require_classes": ["kind:size", "kind:pair", "kind:pct", "kind:elapsed", "kind:eta", "kind:avgeta", "kind:speed", "kind:avgspeed", "kind:ewma", "kind:freeze", "current>2^64/100", "value>2^53", "unit-boundary", "duration>=24h", "zero-then-progress", "via-bar", "wrap-depth:4", "twin-moved", "avg:median", "avg:hybrid", "render-between-samples", "age:past-warm-up", "avg:age"],
     },
     "C19": {
         "rule": "cases = (direction, underlying dynamic type: with/without Close x with/without WriteTo/ReadFrom, stream of 0-70000 bytes, bar total unknown/equal/above/below the stream length, 0-3 recording moving-average decorators under 0-3 wrapper layers, a script of up to 12 underlying results (byte limits incl. 0, errors with n>0, EOF with data, delays) and up to 12 consumer calls: Read/Write of generated sizes, io.Copy, io.ReadAll, direct WriteTo/ReadFrom, Close); non-trivial = >=3 transfers of >=2 sizes with an injected error/zero transfer or a fast-path type; distinct by FNV-64 of the case JSON",
@@ -76,13 +76,13 @@ CONF = {
         "rule": "cases = sequential manual-refresh scenarios (2-8 bars with and without BarPriority incl. equal and extreme values, SetPriority, UpdateBarPriority immediate and lazy, completions, aborts, removal, queued successors, pop mode, render cycles anywhere); non-trivial = a frame with >=3 bars, >=1 priority change and >=3 frames whose order is checked; distinct by FNV-64 of the scenario JSON",
         "assumptions": GO_ASSUME + SCHED_ASSUME + ["effective priorities come from the reference frame model (creation order, explicit priority, last immediate change, lazy change from the frame after next, predecessor's priority for a promoted successor, finishing order in pop mode); ties and the frame after a lazy change accept any order", "priorities are kept above the range pop mode reserves for finished bars (math.MinInt32 + number of popped bars)"],
         "tiers": tiers(8, 1500, 16, 40000),
-        "require_classes": ["pop", "lazy-change", "immediate-change", "frame-after-lazy", "extreme-priority", "successor-displayed", "popped>=2"],
+        "require_classes": ["pop", "lazy-change", "immediate-change", "frame-after-lazy", "extreme-priority", "successor-displayed", "popped>=2", "priority-change-mid-render", "add-requests-frame"],
     },
     "C01": {
         "rule": "cases = concurrent scenarios: 1-9 bars, queue length from {default, 0, 1, 2, n-1, n, n+1}, refresh none/manual/injected auto/real ticker 1-3 ms, 0-2 synchronised decorators per side with wrapper stacks, pop mode, removal, queued successors, priority changes, 1-2 phases of 1-4 client goroutines issuing up to 10 operations each (updates, aborts, priority changes, Progress.Write, render ticks, late adds, getters, optional cancel/Shutdown), keyed delays at the hook points and one directed hold; every program ends by finishing all bars and calling Wait; non-trivial = >=2 bars and (sync decorators on >=2 bars, n>q, pop mode or concurrent clients); distinct by FNV-64 of the scenario JSON",
         "assumptions": GO_ASSUME + SCHED_ASSUME,
         "tiers": tiers(8, 1200, 16, 15000, gomaxprocs=[4, 2, 8, 1]),
-        "require_classes": ["refresh:autort", "refresh:autoinj", "refresh:manual", "refresh:none", "n>q", "sync>=2bars", "n>q+sync", "pop", "cancelled", "hold", "user-waitgroup", "render-fault", "clocked"],
+        "require_classes": ["refresh:autort", "refresh:autoinj", "refresh:manual", "refresh:none", "n>q", "sync>=2bars", "n>q+sync", "pop", "cancelled", "hold", "user-waitgroup", "render-fault", "clocked", "delay-never-released"],
     },
     "C02": {
         "rule": "cases = concurrent scenarios over the public API (Add, Write, UpdateBarPriority, every Bar mutator and getter, proxies, TraverseDecorators, DecoratorAverageAdjust, Bar.Wait) from 1-4 client goroutines in 1-2 phases, with context cancel or Shutdown inserted at a generated position inside a phase (60% of cases), all refresh modes, queue lengths incl. n>q, perturbation; then 1-12 late calls after Wait returned; non-trivial = the done event lies inside the history and there is >=1 late call; distinct by FNV-64 of the scenario JSON",
@@ -95,18 +95,19 @@ CONF = {
         "rule": "cases = programs with the cancel event (context cancel or Shutdown) (a) as a step anywhere in a sequential program, (b) inside a concurrent phase of 1-3 client goroutines, (c) fired from inside a library hook point (flush of a bar, bar render, render begin/end, heap-manager request, width sent/collected, bar exit) at occurrence 1-12; all refresh modes, 1-6 bars with shutdown-listening decorators under 0-3 wrapper layers, notifier configured or not; non-trivial = the cancel lands after >=1 Add with >=1 listener and an unfinished bar (or inside the library); distinct by FNV-64 of the scenario JSON",
         "assumptions": GO_ASSUME + SCHED_ASSUME + ["the set handed to the notifier is compared exactly only for clocked runs (frame model); otherwise it must be duplicate-free, inside the container and contain every bar that was still running and displayed", "hangs of runs that were never cancelled are left to C01"],
         "tiers": tiers(8, 1500, 16, 20000),
-        "require_classes": ["refresh:manual", "refresh:autoinj", "refresh:autort", "refresh:none", "cancel-step", "cancel-in-concurrent-phase", "cancel-inside:flush.bar", "cancel-inside:bar.render", "cancel-inside:wc.sent", "cancel-inside:bar.exit", "listeners", "notifier", "notifier-exact", "cancel-with-render-delay"],
+        "require_classes": ["refresh:manual", "refresh:autoinj", "refresh:autort", "refresh:none", "cancel-step", "cancel-in-concurrent-phase", "cancel-inside:flush.bar", "cancel-inside:bar.render", "cancel-inside:wc.sent", "cancel-inside:bar.exit", "listeners", "notifier", "notifier-exact", "cancel-with-render-delay", "delay-never-released"],
     },
     "C13": {
         "rule": "cases = concurrent scenarios with 1-4 client goroutines in 1-2 phases whose operations are ~50% Progress.Write calls with unique newline-terminated payloads (0-40 byte bodies) issued from a buffer that is overwritten after the call returns, racing with render cycles (real ticker, injected ticks, manual), completions, cancel/Shutdown (35%), the final render and Wait; plus 0-3 writes after Wait; non-trivial = >=1 successful write that overlapped a render cycle by event numbers, or a write that lost the race with the done event; distinct by FNV-64 of the scenario JSON",
         "assumptions": GO_ASSUME + SCHED_ASSUME + ["one output Write call = one frame; occurrences are searched in the concatenation of all chunks", "for manual refresh a successful write may stay unflushed when the program requests no further frame (the statement is about containers that refresh themselves)", "hangs are left to C01"],
         "tiers": tiers(8, 1500, 16, 20000),
-        "require_classes": ["refresh:autort", "refresh:autoinj", "refresh:manual", "write-overlaps-render", "write-errdone", "writes>=2", "cancelled", "late-write", "repeated-payload", "unterminated-write"],
+        "require_classes": ["refresh:autort", "refresh:autoinj", "refresh:manual", "write-overlaps-render", "write-errdone", "writes>=2", "cancelled", "late-write", "repeated-payload", "unterminated-write", "write-after-delay"],
     },
     "C15": {
         "rule": "cases = fault plans: the k-th Fill of one bar, the k-th extender call of one bar, the k-th output Write (error or short write) or the k-th terminal-size query (pty) fails, k in 1..4 (half of the cases, so every site kind x small k is covered many times over) or 1..12; 1-6 bars with 0-2 synchronised decorators per side in every layout, slow decorators and directed holds between width exchange and flush, manual / injected auto / real ticker refresh, n<=q and n>q; non-trivial = the fault fired while >=2 bars carry synchronised decorators; distinct by FNV-64 of the scenario JSON",
-        "assumptions": GO_ASSUME + SCHED_ASSUME + ["fault sites are enumerated by kind and small k through the generator's weighting, not by a nested loop", "hangs of runs whose fault never fired are left to C01"],
+        "assumptions": GO_ASSUME + SCHED_ASSUME + ["fault sites are enumerated by kind and small k through the generator's weighting, not by a nested loop", "hangs of runs whose fault never fired are left to C01", "a worker process that dies (panic in a library goroutine) is a violation: the statement says no panic; the journalled scenario is the replay file"],
         "level": "fault_enumeration",
+        "crash_is_violation": True,
         "tiers": tiers(8, 1500, 16, 20000),
         "require_classes": ["refresh:manual", "refresh:autoinj", "refresh:autort", "fault:filler", "fault:extender", "fault:output", "fault:termsize", "others-sync", "hold"],
     },
@@ -121,7 +122,7 @@ CONF = {
         "assumptions": GO_ASSUME + SCHED_ASSUME + ["linearizability is decided by porcupine v1.3.0 on the recorded invoke/return history per bar (histories capped at 400 operations, 8 s timeout -> inconclusive)", "operations that reach a bar after its terminal event may be applied or dropped (both legal)", "the Go race detector only reports races on executed accesses; a report counts when the access sites of both goroutines are library code"],
         "crash_is_violation": True,
         "tiers": tiers(8, 600, 16, 12000, q_race_shards=6, q_race_checks=150, t_race_shards=8, t_race_checks=3000, race_gomaxprocs=4),
-        "require_classes": ["refresh:autort", "refresh:autoinj", "refresh:manual", "refresh:none", "shared-bar>=3clients", "quiescent-sum", "getter-after-exit-with-later-render"],
+        "require_classes": ["refresh:autort", "refresh:autoinj", "refresh:manual", "refresh:none", "shared-bar>=3clients", "quiescent-sum", "getter-after-exit-with-later-render", "cancelled"],
     },
     "C03": {
         "rule": "cases = sequential programs on auto-refreshing containers (render requests injected by the harness racing with the library's early refresh, or a real 1-3 ms ticker): 1-6 bars with on-complete/on-abort fillers and decorator wrapper stacks, removal on completion, aborts with and without drop, pop mode, queued successors, post-terminal updates, optional cancel/Shutdown; non-trivial = >=2 bars, >=1 completed bar in the last frame and >=1 aborted, removed, popped or replaced bar, and no render-cycle step after the last update (the last frame has to come from early refresh or the final render); distinct by FNV-64 of the scenario JSON",
@@ -139,7 +140,7 @@ CONF = {
         "rule": "cases = sequential programs on 1-3 bars that continue after the terminal event: Abort on bars at or below total, bars with total<=0, non-decreasing increments/SetCurrent, SetTotal, EnableTriggerComplete and further Aborts after abort or completion, getters, Bar.Wait, render cycles, cancel/Shutdown anywhere; refresh none, manual, injected auto (bar goroutine survives the terminal event) and a real ticker; non-trivial = >=1 mutator issued after the terminal event and >=1 read after it; distinct by FNV-64 of the scenario JSON",
         "assumptions": GO_ASSUME + SCHED_ASSUME + ["observations are ordered per observer (one client goroutine; frames in output order)", "updates after completion are generated non-decreasing only, as the statement requires", "hangs are left to C01"],
         "tiers": tiers(8, 2500, 16, 60000),
-        "require_classes": ["refresh:none", "refresh:manual", "refresh:autoinj", "refresh:autort", "mutator-after-abort", "mutator-after-complete", "cancelled"],
+        "require_classes": ["refresh:none", "refresh:manual", "refresh:autoinj", "refresh:autort", "mutator-after-abort", "mutator-after-complete", "cancelled", "add-after-cancel"],
     },
     "C04": {
         "rule": "cases = clocked scenarios (manual refresh) on byte buffers and on ptys of 2-8 rows x 40-100 columns: bars added, removed, popped, queued, extended with 1-3 extra rows above or below, text written between frames, render delay, bar counts below/at/above the height; plus non-terminal containers without refresh; every chunk is fed to the VT emulator and the screen+scrollback compared with persisted lines ++ rows of the frame; non-trivial = >=3 frames and (row counts differ, or a frame within one row of the height, or text between frames); distinct by FNV-64 of the scenario JSON",
@@ -151,7 +152,7 @@ CONF = {
         "rule": "cases = pop-completed scenarios: 1-8 bars finishing (complete, abort, abort with drop, remove-on-complete) in any order and in the same cycle, extender rows, text in between, no-pop bars, queued successors, byte buffers and ptys, manual refresh (exact frame model), injected auto refresh and a real ticker (final screen only); non-trivial = bars popped in >=2 different cycles and >=1 frame after the last pop (exact runs) or >=2 popped bars and >=4 frames; distinct by FNV-64 of the scenario JSON",
         "assumptions": GO_ASSUME + SCHED_ASSUME + ["final screen = scrollback + screen of the VT emulator after the whole output", "open finding C18-popped-bar-cut-by-height is excluded from the generator by construction (ptys are made tall enough for all rows) and probed by its reproducer", "hangs are left to C01"],
         "tiers": tiers(8, 2500, 16, 40000),
-        "require_classes": ["refresh:manual", "refresh:autoinj", "refresh:autort", "pty", "exact-model", "popped>=2", "same-cycle-pops", "nopop", "extender", "text"],
+        "require_classes": ["refresh:manual", "refresh:autoinj", "refresh:autort", "pty", "exact-model", "popped>=2", "same-cycle-pops", "nopop", "extender", "text", "priority-change-mid-render"],
     },
     "C05": {
         "rule": "cases = sequential scenarios (container config, 1-7 bar specs, program of add/incr/set/abort/priority/write/tick/cancel steps) drawn by rapid; non-trivial = >=3 frames and >=1 change of the displayed set between frames; distinct by FNV-64 of the scenario JSON",
@@ -163,6 +164,6 @@ CONF = {
         "rule": "cases = sequential scenarios with BarQueueAfter links (70% of bars), chains, pop mode, removal, aborts, manual and injected auto refresh; non-trivial = a successor created after its predecessor finished, or a predecessor with >=2 successors, or a chain of >=3; distinct by FNV-64 of the scenario JSON",
         "assumptions": GO_ASSUME + SCHED_ASSUME + ["open findings C17-second-successor-overwrites and C17-late-successor are excluded from the generator by construction and probed by their reproducers"],
         "tiers": tiers(8, 2000, 16, 40000),
-        "require_classes": ["queued", "exact-model", "chain>=3", "successor-after-predecessor-finished", "refresh:autoinj"],
+        "require_classes": ["queued", "exact-model", "chain>=3", "successor-after-predecessor-finished", "refresh:autoinj", "add-requests-frame"],
     },
 }
